@@ -15,13 +15,11 @@
              CAS(word: self → 0); on success try_complete; cancelled_ = true / deferred = done;
              forwardingOp_.start
     completion_forwarder::start = connect(schedule(get_scheduler(receiver)), receiver{outer}); start;
-             its receiver forwards get_stop_token to the FINAL receiver, so a scheduler that looks at
-             the stop token when it runs the operation (manual_event_loop, inline_scheduler, the
-             harness' scheduler) answers set_done if stop has been requested by then — and the
-             forwarder passes that set_done to the final receiver WITHOUT calling forward_set_value.
-             Modelled as coded: step 11 below.  Consequence (DESIGN §8 #3): a call whose payload was
-             accepted can complete with done, an accept that was handed a payload can complete with
-             done (the payload is dropped).
+             its receiver answers get_stop_token with `unstoppable_token` (since /repo commit b17d5ba;
+             before that fix it forwarded the FINAL receiver's stop token, so a stop request arriving
+             after the hand-over turned the rescheduled completion into set_done — DESIGN §8 #3), so
+             the schedule operation always reaches forward_set_value: the outcome is decided by
+             `cancelled_` / the deferred completion alone.  Modelled as coded: step 11 below.
 
   Steps: one per atomic operation on the word / on a cancellable state / on a stop source /
   scheduler queue; `try_complete` + destroying the stop callback + enqueueing the forwarder's
@@ -51,9 +49,6 @@ structure Config where
   present : List Bool        -- [caller present, acceptor present]
   stoppable : List Bool      -- [caller's receiver has a stop token, acceptor's …]
   scripts : List (List POp)  -- controller scripts, controller 0 = T0
-  honourStop : Bool := true  -- the receivers' scheduler completes a schedule operation with set_done when
-                             -- the stop token reports a request (inline_scheduler, manual_event_loop);
-                             -- false: it ignores the token (always set_value)
 
 /-- party pcs: 0 call, 1 register cb, 2 CAS loop, 3 rendezvous (first resume), 4 second resume,
     6 load sync_complete, 7 fetch_or(started), 8 stop(): CAS un-claim, 9 stop(): complete,
@@ -175,8 +170,9 @@ def stepP (cfg : Config) (s : St) (who : Nat) : Option (Lbl × St) :=
   | 10 => some (ev t s!"{nm who}.started", setP s who { p with pc := 11 })
   | 11 =>
     if p.sched then
-      -- the schedule operation runs: it looks at the (final receiver's) stop token FIRST
-      let isDone := (cfg.honourStop && stp && p.stopReq) || p.cancelled
+      -- the schedule operation runs; its receiver's stop token is unstoppable_token, so it always
+      -- calls forward_set_value: done iff cancelled_ (caller) / the deferred completion is done (acceptor)
+      let isDone := p.cancelled
       let s1 := if p.count ≥ 1 then flag s 1 else s
       let s2 := if isDone && !p.stopReq then flag s1 3 else s1
       let s3 := if !isDone && who = 1 && p.payload = 0 then flag s2 2 else s2
@@ -252,8 +248,8 @@ def final (cfg : Config) (s : St) : Bool :=
   partyDone cfg s 0 && partyDone cfg s 1 &&
   (List.range s.cs.length).all (fun j => (getT s j).pc == 0 && decide ((cfg.scripts.getD j []).length ≤ (getT s j).ip))
 
-/-- The property as a state predicate, WITHOUT the faithfulness clauses that the code violates
-    (see `faithful`):
+/-- The property as a state predicate (the converse direction of `call_value_iff_accepted` is
+    `faithful`):
     * no party completes twice, no accept value without a payload, no done without a stop request,
       the caller's payload is handed over at most once (`bad = 0`);
     * no deadlock (in particular: a cancelled call leaves the acceptor waiting and claimable, and
@@ -274,9 +270,9 @@ def safe (cfg : Config) (s : St) : Bool :=
   (!(getP s 0).cancelled || !s.transferred) &&
   (!(getP s 1).cancelled || (getP s 1).payload == 0)
 
-/-- `call_value_iff_accepted`, the direction the code violates: a call whose payload was handed
-    over does not complete with done, and an accept that was handed a payload does not complete
-    with done. -/
+/-- `call_value_iff_accepted`, the converse direction (the one the pre-b17d5ba forwarder violated): a
+    call whose payload was handed over does not complete with done, and an accept that was handed a
+    payload does not complete with done. -/
 def faithful (s : St) : Bool :=
   (!(s.transferred && (getP s 0).outcome == 2)) &&
   (!((getP s 1).payload != 0 && (getP s 1).outcome == 2))
@@ -331,13 +327,9 @@ def cfgTryAccept : Config :=
   { present := [true, false], stoppable := [false, false],
     scripts := [[.joinCtl, .unlessServed, .awaitWord 1, .tryAccept], [.tryAccept]] }
 
-/-- like `cfgCancelCall`, but the scheduler ignores stop tokens: the forwarder always reaches
-    forward_set_value, so `cancelled_` alone decides between value and done -/
-def cfgCancelCallPlain : Config := { cfgCancelCall with honourStop := false }
-
 def configs : List (String × Config) :=
   [("pass_rendezvous", cfgRendezvous), ("pass_cancel_call", cfgCancelCall), ("pass_cancel_accept", cfgCancelAccept),
-   ("pass_cancel_call_plain", cfgCancelCallPlain),
+   ("pass_cancel_call_plain", cfgCancelCall),   -- same protocol, C++ scheduler ignores stop tokens
    ("pass_try_call", cfgTryCall), ("pass_try_accept", cfgTryAccept)]
 
 end Unifex.Proto.AsyncPass
